@@ -190,3 +190,30 @@ Theorem c15_completeness_partial : forall parse_class t,
   end.
 Proof. exact completeness_partial. Qed.
 Print Assumptions c15_completeness_partial.
+
+(** $LINENO bookkeeping on standard input: the offset in force for a chunk is the number of
+    lines read before it. *)
+Theorem c15_offsets_are_lines_before : forall off pre ch post,
+  Forall (fun c => ends_nl c = true) pre ->
+  In ((off + count_nl (concat pre))%nat, ch) (with_offsets off (pre ++ ch :: post)).
+Proof. exact offsets_are_lines_before. Qed.
+Print Assumptions c15_offsets_are_lines_before.
+
+(** `eval` line numbers.  Full statement [Modes.eval_lineno_stmt] (positions inside eval'ed text
+    count from the line L of the `eval` word, as in bash) is refuted by the model of the unchanged
+    code; it holds outside the known class L > 1 (finding KF-C15-eval-lineno-base). *)
+Theorem c15_eval_lineno_refuted :
+  ~ eval_lineno_stmt (list nat) nat unit t_exec (fun _ _ st => st) t_parse t_keq (fun _ s => s) (fun s => firstn 64 s).
+Proof. exact eval_lineno_refuted. Qed.
+Print Assumptions c15_eval_lineno_refuted.
+
+Theorem c15_eval_lineno_outside_known :
+  forall (St cmd opts : Type) (exec : cmd -> nat -> St -> St * flow) (parse_error : str -> nat -> St -> St)
+    (parse : opts -> str -> option (list cmd)) (K_eqb : str * opts -> str * opts -> bool)
+    (on_hit : str * opts -> list (str * opts * option (list cmd)) -> list (str * opts * option (list cmd)))
+    (on_insert : list (str * opts * option (list cmd)) -> list (str * opts * option (list cmd)))
+    (h : list (str * opts)) (o : opts) (text : str) (base L : nat) (st : St), ~ (1 < L)%nat ->
+  eval_builtin St cmd opts exec parse_error parse K_eqb on_hit on_insert h o text base st =
+  eval_builtin_bash St cmd opts exec parse_error parse K_eqb on_hit on_insert h o text base L st.
+Proof. exact eval_lineno_outside_known. Qed.
+Print Assumptions c15_eval_lineno_outside_known.
